@@ -2,6 +2,7 @@
 # pickled. Inspired by example here https://stackoverflow.com/a/57190433
 
 import dill
+import func_timeout
 import multiprocessing
 
 
@@ -93,10 +94,11 @@ class ParallelMap:
                 result = function(
                     *args, equilibrium=equilibrium, psi=psi, f_R=f_R, f_Z=f_Z, **kwargs
                 )
-            except Exception as e:
+            except (Exception, func_timeout.FunctionTimedOut) as e:
                 # Do not let the worker die (the caller would wait forever for this
                 # result): report the exception in place of the result, to be
-                # re-raised by __call__().
+                # re-raised by __call__(). FunctionTimedOut (raised when refining a
+                # FineContour exceeds refine_timeout) does not derive from Exception.
                 result = _WorkerException(e)
             result_queue.put((i, result))
 
